@@ -9,7 +9,7 @@ from ..common import V, samples_of
 
 NX = 6
 PROBES = np.array([-0.5, 0.0, 1e-3, 0.37, 1.0, 2.0, 2.5, 3.0, 10.0])
-SIM_OPS = {"simA", "simA'", "simB", "simC", "simD", "simA+S1", "simB+S2"}
+SIM_OPS = {"simA", "simA'", "simE", "simB", "simC", "simD", "simA+S1", "simB+S2"}
 SET_OPS = {"setF", "setP"}  # public dataclass fields reassigned on the live object (toggles)
 ALT = {"T_ship_gas": ("S_zdip", 6500.0), "S_zdip": ("T_ship_gas", 7500.0), "S_ideal": ("S_zlin", 7000.0)}
 CONFIGS = [  # (class, table, p_f, p_i)
@@ -23,6 +23,7 @@ def grids():
     return {"A": sim.time_grid("quadratic", 8, 2.0), "B": sim.time_grid("uniform", 8, 3.0),
             # A' = A stretched by 4 ppm: same length, inside any default np.isclose band, a different run
             "A'": sim.time_grid("quadratic", 8, 2.0) * (1 + 4e-6),
+            "E": np.array([0.0]),  # a single time: no step is taken, the stored run is the initial state alone
             "C": sim.time_grid("geometric", 11, 0.0),
             "D": np.concatenate([[0.0], np.geomspace(0.5, 1e7, 15)])}  # runs to complete depletion (profile stops moving)
 
@@ -34,9 +35,9 @@ def schedules(p_f, p_i):
 
 def alphabet(cls, with_set=True):
     if cls == "ideal":
-        base = ["simA", "simA'", "simB", "simC", "simD", "rf", "rf_density", "interp"]
+        base = ["simA", "simA'", "simE", "simB", "simC", "simD", "rf", "rf_density", "interp"]
     else:
-        base = ["simA", "simA'", "simB", "simC", "simD", "simA+S1", "simB+S2", "rf", "rf_density", "interp"]
+        base = ["simA", "simA'", "simE", "simB", "simC", "simD", "simA+S1", "simB+S2", "rf", "rf_density", "interp"]
     return base + (["setF", "setP"] if with_set else [])
 
 
